@@ -31,6 +31,29 @@ def judge_contract(rec):
     return list(rec["contract"].get("bad") or [])
 
 
+def naming_family(big):
+    names = ["", "1", "2", "x"] + (["3", "y"] if big else [])
+    pats = []
+    for a in names:
+        for b in names:
+            pats.append([a, b])
+            if big:
+                pats += [[a, b, c] for c in names]
+
+    def rx(gs):
+        return "".join("(%s%s)" % ("?P<%s>" % g if g else "", ch) for g, ch in zip(gs, "abc"))
+    out = []
+    for gs in pats:
+        refs = ["$1", "$2"] + (["$3"] if len(gs) > 2 else []) + sorted({"$" + g for g in gs if g and not g.isdigit()})
+        for ref in refs:
+            out.append("counter c by k\n/%s/ {\n  c[%s]++\n}\n" % (rx(gs), ref))
+            out.append("counter c by k\ndef d {\n  /%s/ {\n    next\n  }\n}\n@d {\n  c[%s]++\n}\n" % (rx(gs), ref))
+            out.append("counter c by k\n/%s/ {\n  /(z)/ {\n    c[%s]++\n  }\n}\n" % (rx(gs), ref))
+            if big:
+                out.append("counter c by k\ndef d {\n  /%s/ {\n    next\n  }\n}\n@d {\n  /(?P<x>z)/ {\n    c[%s]++\n  }\n}\n" % (rx(gs), ref))
+    return out
+
+
 def run(ctx):
     binary = vlib.build(ctx, "lexx")
     worst = 0.0
@@ -88,6 +111,24 @@ def run(ctx):
             if bad2:
                 ctx.violation({"text": rec["text"], "mutation": c["mut"], "mismatches": bad2[:3]}, "mutant (%s): %s" % (c["mut"]["kind"], bad2[0][:250]))
     ctx.sample({"mutation": cases[7]["mut"], "text_tail": recs[7]["text"][-200:], "outcome": recs[7]["contract"]["first"]}, limit=3)
+    # 3. "the same source twice yields the same bytecode and data": the compiler's symbol tables are Go maps, so a result
+    #    that depends on iteration order shows only in some runs.  Family: capture groups whose NAMES collide with the
+    #    numbers or names of their neighbours, referenced directly, in a nested block and through a decorator's scope copy;
+    #    each text is compiled 1 + reps times.
+    fam = naming_family(ctx.thorough)
+    frecs = [x for x in vlib.run_harness(ctx, binary, cases=[{"seed": 1, "text": t, "reps": 40} for t in fam], timeout=2400) if "n" in x]
+    if len(frecs) != len(fam):
+        raise vlib.InfraError("lexx processed %d of %d naming cases" % (len(frecs), len(fam)))
+    for t, rec in zip(fam, frecs):
+        ctx.cov["evaluations"] += 1
+        bad = judge_contract(rec)
+        if bad and not ctx.enough():
+            again = [x for x in vlib.run_harness(ctx, binary, cases=[{"seed": 1, "text": t, "reps": 200}]) if "n" in x][0]
+            bad2 = judge_contract(again)
+            if bad2:
+                ctx.violation({"text": t, "reps": 200, "mismatches": bad2[:3], "diff": again["contract"].get("diff")},
+                              "capture-group naming family: %s; source %r" % (bad2[0][:200], t))
+    ctx.cov["naming_family"] = {"texts": len(fam), "compiles_each": 41, "accepted": sum(1 for r in frecs if r["contract"]["first"]["object"])}
     ctx.cov["distinct_nontrivial"] = seen + len(cases)
     ctx.cov["mutants_by_kind"] = kinds
     ctx.cov["worst_compile_seconds"] = round(worst, 3)
@@ -100,7 +141,7 @@ def run(ctx):
 def replay(ctx, path):
     binary = vlib.build(ctx, "lexx")
     rc = json.load(open(path))["case"]
-    rec = [x for x in vlib.run_harness(ctx, binary, cases=[{"seed": 1, "text": rc["text"]}]) if "n" in x][0]
+    rec = [x for x in vlib.run_harness(ctx, binary, cases=[{"seed": 1, "text": rc["text"], "reps": rc.get("reps", 1)}]) if "n" in x][0]
     bad = judge_contract(rec)
     if rec["contract"].get("diff"):
         print("replay: the two results:\n%s" % json.dumps(rec["contract"]["diff"], indent=1))
